@@ -162,7 +162,7 @@ func runC19(c *core.Ctx) {
 						for w := range sl {
 							switch x := w.(type) {
 							case *ssa.FieldAddr:
-								if fnm := core.FieldName(x); fnm == "_node.val" || fnm == "_nodeRepr.val" {
+								if isReflectValueField(x) {
 									fromField = true
 								}
 							case *ssa.Call:
@@ -221,7 +221,7 @@ func checkFreshSlot(c *core.Ctx) {
 				return
 			}
 			fa, ok := st.Addr.(*ssa.FieldAddr)
-			if !ok || core.FieldName(fa) != "_assembler.val" {
+			if !ok || !isReflectValueField(fa) || !strings.HasSuffix(core.TypeString(fa.X.Type()), "_assembler") {
 				return
 			}
 			n++
